@@ -1,6 +1,7 @@
 (* C12 correspondence: the harness's observations of the real emitters,
    compared with the model and judged by the validators. *)
-From Apko Require Export Base.Prelude Base.C12Lib Generated.C12Oci Model.Oci Spec.OciSpec.
+From Apko Require Export Base.Prelude Base.C12Lib Generated.C12Oci Model.Oci Model.OciTime Model.OciShlex Model.OciImage
+  Spec.OciSpec Spec.OciTimeSpec Spec.OciShlexSpec Spec.OciImageSpec.
 Open Scope string_scope. Open Scope list_scope.
 
 (* one bundle written by BuildIndex: [bc_archs] = architecture keys in the order
@@ -24,34 +25,79 @@ Definition check_bundle (c : bundle_case) : list string :=
   tag_if (negb (list_eqb Bool.eqb (bundle_included (bc_ntags c) (bc_archs c)) (bc_included c)))
          "mismatch:bundle-included-images".
 
-(* ---- the header scan: abstract tar stream vs archive/tar on an *os.File, and vs the
-        real BuildIndex ------------------------------------------------------------------
-   [sc_members]: what a raw block-by-block walk finds (header blocks incl. extension
-   headers, size field); [sc_trace]: what the standard reader placed directly on the
-   file reports after each Next() (f.Seek(0, io.SeekCurrent), hdr.Size);
+(* ---- the header scan: tar stream of raw header records vs archive/tar on an *os.File,
+        and vs the real BuildIndex ---------------------------------------------------------
+   [sc_records]: what a raw block-by-block walk finds (kind from the type flag, size field);
+   [sc_trace]: what the standard reader placed directly on the file reports after each
+   Next() (f.Seek(0, io.SeekCurrent), hdr.Size);
    [sc_target]: offset of the first end-of-archive block (kind stdlib) or of the first
-   header BuildIndex appended (kind bundle, members = those MultiWrite wrote) *)
-Record scan_case := { sc_members : list member; sc_trace : list (Z * Z); sc_target : Z }.
+   header BuildIndex appended (kind bundle, records = those MultiWrite wrote) *)
+Record scan_case := { sc_records : list rawrec; sc_trace : list (Z * Z); sc_target : Z }.
 Definition zpair_eqb (a b : Z * Z) : bool := Z.eqb (fst a) (fst b) && Z.eqb (snd a) (snd b).
 Definition check_scan (c : scan_case) : list string :=
-  tag_if (negb (list_eqb zpair_eqb (reader_trace 0 (sc_members c)) (sc_trace c))) "mismatch:scan-reader-trace" ++
-  tag_if (negb (Z.eqb (stream_len (sc_members c)) (sc_target c))) "mismatch:scan-stream-length" ++
-  (match scan_offset (sc_members c) with
-   | Ok o => tag_if (negb (Z.eqb o (sc_target c))) "mismatch:scan-offset"
+  let '(p, z) := List.last (sc_trace c) (0, 0)%Z in
+  (* the reader's position bookkeeping per record kind, model vs the real reader *)
+  tag_if (negb (list_eqb zpair_eqb (reader_trace (sc_records c)) (sc_trace c))) "mismatch:scan-reader-trace" ++
+  (* the layout statement on the real reader: after the i-th Next() the file offset is the start of the i-th body *)
+  tag_if (forallb raw_ok_b (sc_records c) && negb (list_eqb zpair_eqb (body_starts 0 (sc_records c)) (sc_trace c)))
+         "mismatch:scan-position-not-at-body-start" ++
+  tag_if (negb (Z.eqb (stream_len (sc_records c)) (sc_target c))) "mismatch:scan-stream-length" ++
+  (match scan_offset (sc_records c) with
+   | Ok o => tag_if (negb (Z.eqb o (append_offset p z))) "mismatch:scan-offset"
    | _ => ["mismatch:scan-outcome"]
    end) ++
-  (* the translated arithmetic on what the real reader reported last *)
-  (let '(p, z) := List.last (sc_trace c) (0, 0)%Z in
-   tag_if (negb (Z.eqb (append_offset p z) (sc_target c))) "viol:append-offset-not-first-end-of-archive-block").
+  (* inside the envelope of c12_append_offset_scan: the translated arithmetic on what the real
+     reader reported last is the offset of the first end-of-archive block *)
+  tag_if (ends_ok_b (sc_records c) && negb (Z.eqb (append_offset p z) (sc_target c)))
+         "viol:append-offset-not-first-end-of-archive-block".
+
+(* ---- the time printers and the splitter, model vs the real functions ------------------- *)
+(* TFormat sec nsec off  real created.Format(time.RFC3339)  real MarshalJSON (None = error)
+   TParse text  real time.Parse(time.RFC3339, text).Unix() (None = error) *)
+Inductive time_case :=
+| TFormat (sec nsec off : Z) (fmt : string) (json : option string)
+| TParse (text : string) (go : option Z).
+Definition check_time (c : time_case) : list string :=
+  match c with
+  | TFormat sec nsec off fmt json =>
+      tag_if (negb (String.eqb (go_format_rfc3339 sec off) fmt)) "mismatch:rfc3339" ++
+      tag_if (negb (option_eqb String.eqb (go_marshal_time sec nsec off) json)) "mismatch:rfc3339-json" ++
+      (* the Spec's reading of what the REAL printer wrote, inside the range of c12_rfc3339_roundtrip *)
+      (if Z.eqb off 0 && Z.leb rfc3339_min sec && Z.leb sec rfc3339_max then
+         tag_if (negb (rfc3339_utc_shape fmt)) "viol:created-text-shape" ++
+         tag_if (negb (option_eqb Z.eqb (parse_rfc3339 fmt) (Some sec))) "viol:created-text-does-not-denote-the-creation-time"
+       else [])
+  | TParse text go =>
+      (* the Spec's meaning of a UTC timestamp vs Go's parser, on texts of the 20-character shape *)
+      tag_if (rfc3339_utc_shape text && negb (option_eqb Z.eqb (parse_rfc3339 text) go)) "mismatch:rfc3339-parse"
+  end.
+
+(* [sx_real]: the real shlex.Split (None = error); [sx_words] (when [sx_quoted]): the word list
+   the harness single-quoted and joined to make [sx_input] *)
+Record shlex_case := { sx_input : string; sx_real : option (list string); sx_quoted : bool; sx_words : list string }.
+Definition words_eqb := option_eqb (list_eqb String.eqb).
+Definition check_shlex (c : shlex_case) : list string :=
+  let u := utf8_sanitize (sx_input c) in
+  tag_if (negb (words_eqb (shlex_split (sx_input c)) (sx_real c))) "mismatch:shlex" ++
+  tag_if (all_chars (fun ch => negb (quoting_char ch)) u && negb (words_eqb (sx_real c) (Some (fields u))))
+         "viol:plain-command-line-not-split-at-blanks" ++
+  (if sx_quoted c then
+     tag_if (negb (String.eqb (quote_words (sx_words c)) (sx_input c))) "mismatch:shlex-quote-harness" ++
+     tag_if (String.eqb (utf8_sanitize (sx_input c)) (sx_input c) && negb (words_eqb (sx_real c) (Some (sx_words c))))
+            "viol:quoted-words-not-preserved"
+   else []).
 
 (* ---- config ----------------------------------------------------------------------- *)
-(* [cc_shlex]: the real shlex.Split on the command strings of the case
-   (None = it returned an error); [cc_rfc3339]: the real created.Format(time.RFC3339);
-   [co_cfg]: the config read back from the built image's config JSON *)
+(* [cc_created]: the Go time handed to BuildImageFromLayers; [cc_etype], [cc_validated]: entrypoint.type and
+   whether ImageConfiguration.Validate ran first (as build.New does); [cc_nlayers]; [cc_base_history];
+   [cc_shlex], [cc_rfc3339]: the REAL shlex.Split / created.Format(time.RFC3339) on the strings of the case
+   (compared with the models); [co_cfg]: the config read back from the built image's config JSON;
+   [co_created], [co_history]: its created / history as written; [co_ser_err]: the config could not be serialised *)
 Record config_case := {
-  cc_ic : image_config; cc_base : oci_config; cc_created : Z; cc_arch : string;
+  cc_ic : image_config; cc_base : oci_config; cc_base_history : list history_entry;
+  cc_created : go_time; cc_arch : string; cc_etype : string; cc_validated : bool; cc_nlayers : nat;
   cc_shlex : list (string * option (list string)); cc_rfc3339 : string;
-  co_err : bool; co_cfg : oci_config }.
+  co_err : bool; co_ser_err : bool; co_cfg : oci_config; co_created : option string; co_history : list history_entry }.
 
 Definition oracle_shlex (tbl : list (string * option (list string))) (s : string) : option (list string) :=
   match alookup s tbl with Some r => r | None => None end.
@@ -76,20 +122,36 @@ Definition config_diff (m o : oci_config) : list string :=
   tag_if (negb (labels_eqb (oc_labels m) (oc_labels o))) "mismatch:config-labels".
 
 Definition check_config (c : config_case) : list string :=
-  let shlex := oracle_shlex (cc_shlex c) in
-  let rfc := fun _ : Z => cc_rfc3339 c in
+  let t := cc_created c in
+  let rfc := fun sec : Z => go_format_rfc3339 sec (t_off t) in
+  let ic' := if cc_validated c then declared_ic (cc_etype c) (cc_ic c) else cc_ic c in
   let dord := akeys default_env in
   let eord := akeys (with_defaults default_env dord (ic_env (cc_ic c))) in
   (* the map-order parameters must not matter: also run the model with both orders reversed *)
   let dord' := rev dord in
   let eord' := rev (akeys (with_defaults default_env dord' (ic_env (cc_ic c)))) in
+  let obs := {| io_config := co_cfg c; io_created := co_created c; io_history := co_history c |} in
+  let utc_in_range := Z.eqb (t_off t) 0 && Z.eqb (t_nsec t) 0 && Z.leb rfc3339_min (t_sec t) && Z.leb (t_sec t) rfc3339_max in
+  (* the models of the two library functions vs the real ones, on the strings of this case *)
+  tag_if (negb (forallb (fun kv => words_eqb (shlex_split (fst kv)) (snd kv)) (cc_shlex c))) "mismatch:shlex" ++
+  tag_if (negb (String.eqb (rfc (t_sec t)) (cc_rfc3339 c))) "mismatch:rfc3339" ++
+  (* the validators on the observed image *)
   (if co_err c then []
-   else config_tags shlex rfc (expected_platform (cc_arch c)) (cc_base c) (cc_ic c) (cc_created c) (co_cfg c)) ++
-  match build_config shlex rfc (cc_base c) (cc_ic c) (cc_created c) (cc_arch c) dord eord,
-        build_config shlex rfc (cc_base c) (cc_ic c) (cc_created c) (cc_arch c) dord' eord' with
+   else if co_ser_err c then tag_if utc_in_range "viol:config-not-serialisable"
+   else config_tags shlex_split rfc (expected_platform (cc_arch c)) (cc_base c) ic' (t_sec t) (co_cfg c) ++
+        (if utc_in_range then image_time_tags (cc_base_history c) (cc_nlayers c) (t_sec t) obs else [])) ++
+  match build_image (cc_validated c) (cc_etype c) (cc_base c) (cc_base_history c) (cc_ic c) t (cc_arch c) (cc_nlayers c) dord eord,
+        build_image (cc_validated c) (cc_etype c) (cc_base c) (cc_base_history c) (cc_ic c) t (cc_arch c) (cc_nlayers c) dord' eord' with
   | Ok m, Ok m' =>
       if co_err c then ["mismatch:model-succeeds-impl-fails"]
-      else config_diff m (co_cfg c) ++ tag_if (negb (str_list_eqb (oc_env m) (oc_env m'))) "mismatch:model-order-dependent"
+      else tag_if (negb (str_list_eqb (oc_env (io_config m)) (oc_env (io_config m')))) "mismatch:model-order-dependent" ++
+           (match io_created m with
+            | None => tag_if (negb (co_ser_err c)) "mismatch:model-unserialisable-impl-serialises"
+            | Some s => if co_ser_err c then ["mismatch:model-serialises-impl-does-not"]
+                        else config_diff (io_config m) (co_cfg c) ++
+                             tag_if (negb (option_eqb String.eqb (Some s) (co_created c))) "mismatch:config-created-text" ++
+                             tag_if (negb (list_eqb history_entry_eqb (io_history m) (co_history c))) "mismatch:config-history"
+            end)
   | Err, Err => tag_if (negb (co_err c)) "mismatch:model-fails-impl-succeeds"
   | _, _ => ["mismatch:model-inconsistent"]
   end.
